@@ -201,3 +201,37 @@ def threshold_shape(F, rule):
 	if n < 1:
 		out.append(Result(rule, False, 'floor:open-coded-maturity', 'no open-coded ANTI_REORG_DELAY comparison found (expected the restart-time replay in get_onchain_failed_outbound_htlcs)', 0))
 	return out
+
+def restart_replay_guard(F, rule):
+	"""restart-time replay of on-chain HTLC failures (ChannelMonitor::get_onchain_failed_outbound_htlcs): a funding spend still awaiting its
+	threshold counts as confirmed only behind the open-coded maturity test, which must equal the monitor's confirmation threshold"""
+	out = []
+	# restart-time replay (get_onchain_failed_outbound_htlcs): a funding spend still awaiting its threshold is taken as confirmed only behind
+	# the open-coded maturity test, which must equal the monitor's confirmation threshold (same rule as 11.c)
+	n_oc = 0
+	for r in threshold_shape(F, rule):
+		if 'open-coded-maturity' in r.key:
+			n_oc += 1
+			out.append(r)
+	gfn = MONP + 'ChannelMonitor::get_onchain_failed_outbound_htlcs'
+	fam = [F.func(x) for x in F.family(gfn)]
+	okg = False
+	nsite = 0
+	for cu in fam:
+		gs = [Guard(cu, c2) for c2 in comparisons(cu)]
+		mat = [g for g in gs if any(u.endswith('::ANTI_REORG_DELAY') for u in g.nf[3])]
+		somes = {b for b, si in sites_construct(cu, 'Option', 'Some')}
+		vs = enum_variants(F, MONP + 'OnchainEvent')
+		for sb, m, other in variant_switch_edges(cu, lambda pl: True, vs):
+			if 'FundingSpendConfirmation' in m:
+				arm = cu.reach([m['FundingSpendConfirmation']], removed_blocks={sb})
+				acts = somes & arm
+				nsite += len(acts)
+				if acts and mat:
+					ds = [d for g in mat for d in g.decisions]
+					res = P4_guarded(F, rule, cu, acts, ds, True, 'funding spend matured (height + ANTI_REORG_DELAY - 1 <= best height)', key='restart-replay-waits-for-maturity')
+					okg = all(r.ok for r in res)
+					out += res
+	if not okg:
+		out.append(Result(rule, False, 'guard:restart-replay-waits-for-maturity', 'get_onchain_failed_outbound_htlcs: a funding spend still awaiting its confirmation threshold is reported as confirmed without the maturity test (%d site(s), %d open-coded test(s)) - after a restart HTLCs missing from a commitment with 1-5 confirmations are failed back upstream although a reorg can still put them on chain' % (nsite, n_oc), nsite, where=F.where(gfn)))
+	return out
